@@ -25,6 +25,9 @@ from .q import FuncView
 READS = ("read", "peek", "readline", "recv")
 
 
+_READ_ALIASES: Set[str] = set()
+
+
 def _read_vars(loop: ast.AST) -> Set[str]:
     out = set()
     for n in walk_no_nested(loop):
@@ -34,6 +37,8 @@ def _read_vars(loop: ast.AST) -> Set[str]:
                 v = v.value
             if isinstance(v, ast.Call) and isinstance(v.func, ast.Attribute) and v.func.attr in READS:
                 out.add(n.targets[0].id)
+            elif isinstance(v, ast.Call) and isinstance(v.func, ast.Name) and v.func.id in _READ_ALIASES:
+                out.add(n.targets[0].id)  # read = stream.read; chunk = read(n)
     return out
 
 
@@ -98,6 +103,20 @@ def analyse_loop(ctx, f, loop: ast.While) -> Tuple[bool, str, dict]:
     fv = FuncView.of(f.node)
     H = cfg.node(loop)
     body_entry = cfg.edge_node(loop, "true")
+    # locals bound once to a stream's bound read method (`read_chunk = fobj.read`, also via functools.partial)
+    _READ_ALIASES.clear()
+    from .astutil import assignments_to as _asg
+
+    cand = {n0.id for st0 in walk_no_nested(f.node) if isinstance(st0, ast.Assign) for t0 in st0.targets for n0 in ast.walk(t0) if isinstance(n0, ast.Name)}
+    for name0 in cand:
+        defs0 = _asg(f.node, name0)
+        if len(defs0) != 1 or defs0[0][1] is None:
+            continue
+        v0 = defs0[0][1]
+        if isinstance(v0, ast.Call) and dotted(v0.func) in ("functools.partial", "partial") and v0.args:
+            v0 = v0.args[0]
+        if isinstance(v0, ast.Attribute) and v0.attr in READS:
+            _READ_ALIASES.add(name0)
     rvars = _read_vars(loop)
     G: List[Tuple] = []
     facts = []
